@@ -552,6 +552,9 @@ pub struct ByteCompiler<'ctx> {
     /// Whether the function is in a `with` statement.
     pub(crate) in_with: bool,
 
+    /// Whether the statements being compiled belong to a clause of a `switch` statement.
+    pub(crate) in_switch_clause: bool,
+
     /// Used to determine if a we emitted a `CreateUnmappedArgumentsObject` opcode
     pub(crate) emitted_mapped_arguments_object_opcode: bool,
 
@@ -680,6 +683,7 @@ impl<'ctx> ByteCompiler<'ctx> {
             #[cfg(feature = "annex-b")]
             annex_b_function_names: Vec::new(),
             in_with,
+            in_switch_clause: false,
             emitted_mapped_arguments_object_opcode: false,
 
             global_lexs: Vec::new(),
@@ -2302,11 +2306,13 @@ impl<'ctx> ByteCompiler<'ctx> {
                                 );
                                 // Cache non-local const bindings in a persistent register
                                 // so subsequent reads avoid GetName environment lookups.
-                                let cache_reg = self.register_allocator.alloc_persistent();
-                                self.bytecode
-                                    .emit_move(cache_reg.variable(), value.variable());
-                                self.const_binding_cache
-                                    .insert(binding.locator(), cache_reg.index());
+                                if !self.in_switch_clause {
+                                    let cache_reg = self.register_allocator.alloc_persistent();
+                                    self.bytecode
+                                        .emit_move(cache_reg.variable(), value.variable());
+                                    self.const_binding_cache
+                                        .insert(binding.locator(), cache_reg.index());
+                                }
                                 #[cfg(boa_verif)]
                                 if crate::verif::NO_CONST_CACHE.with(std::cell::Cell::get) {
                                     self.const_binding_cache.remove(&binding.locator());
